@@ -38,7 +38,7 @@ def run(ctx):
     ctx.assumptions += ['K: arbitrary accumulator states (all f64 bit patterns, any counts below usize::MAX/2 so the integer sums cannot overflow - stated); feeding loops with <= 3 observations',
                         'threads: Kani does not model threads and none are needed - merging takes operands by value, so a parallel reduction is some merge tree over per-thread values',
                         '"same mean/variance/CI up to rounding": both routes produce registers within the C08 bound of the same exact sums; no separate float query']
-    core.run_kani_set(ctx, ['c09_', 'c01_arith_feeding', 'c01_arith_trait', 'c02_stats_counting'], bound='arbitrary states; <= 3-4 observations', harness_timeout=900)
+    core.run_kani_set(ctx, ['c09_', 'c01_arith_feeding', 'c01_arith_trait', 'c02_stats_counting', 'c04_paired_feeders', 'c04_unpaired_feeders', 'c04_unpaired_append_pair'], bound='arbitrary states; <= 3-4 observations', harness_timeout=900)
     m = E.MEngine(ctx)
     if not m.ok:
         return
